@@ -91,3 +91,36 @@ def region(dsc, rows, vp, lines, double=False, model=None, obligation="", **_):
     return False, text + "; outside the stated preconditions (1 <= VP, VP + rows of text - 1 <= row count)"
   bad = S.region_violations(x, y, w, h, da, vp, (lo, hi), [rows])
   return bool(bad), text + ("; " + "; ".join(b[1] for b in bad) if bad else "; region rule holds")
+
+
+def times(dfc="STL25.01", start="none", model=None, obligation=None, **_):
+  """proof tier `times@<dfc>,start=<start>`: the counter-model's time-code bytes in a one-block file, natively"""
+  import io
+  import logging
+  from fractions import Fraction
+  import ttconv.model as m
+  import ttconv.stl.reader as r
+  from ttconv.stl.config import STLReaderConfiguration
+  from specs import smpte as SM
+  from contracts.c09 import _gsi
+  logging.disable(logging.CRITICAL)
+  model = model or {}
+  v = [int(model.get(k, 0) or 0) for k in ("ih", "im", "is", "if", "oh", "om", "os", "of")]
+  rate = {"STL25.01": Fraction(25), "STL30.01": Fraction(30000, 1001), "STL24.01": Fraction(24), "STL50.01": Fraction(50)}[dfc]
+  g = bytearray(_gsi(b"1"))
+  g[3:11] = dfc.encode()
+  if start == "TCP":
+    g[256:264] = b"10000000"
+  tti = bytes([0, 1, 0, 0xFF, 0] + v + [2, 0, 0]) + b"Line" + b"\x8f" * 108
+  cfg = STLReaderConfiguration(program_start_tc="TCP") if start == "TCP" else None
+  doc = r.to_model(io.BytesIO(bytes(g) + tti), cfg)
+  ps = [e for e in doc.get_body().dfs_iterator() if isinstance(e, m.P)] if doc.get_body() is not None else []
+  off = Fraction(SM.count(10, 0, 0, 0, rate)) / rate if start == "TCP" else Fraction(0)
+  tin = Fraction(SM.count(*v[0:4], rate)) / rate - off
+  tout = Fraction(SM.count(*v[4:8], rate)) / rate - off
+  got = [(p.get_begin(), p.get_end()) for p in ps]
+  if tin < 0:
+    return bool(ps), f"TCI {v[0:4]} before the programme start: paragraphs {got}"
+  if tout < tin:
+    return False, f"TCO {v[4:8]} before TCI {v[0:4]}: nothing demanded"
+  return got != [(tin, tout)], f"TCI {v[0:4]} TCO {v[4:8]} at {rate} fps, start {start}: paragraphs {got}, required [{tin}, {tout})"
